@@ -730,7 +730,11 @@ class DiHypergraph:
 
         format1, format2, format3, format4 = False, False, False, False
 
-        if (
+        if len(first_edge) == 3 and isinstance(list(first_edge)[2], dict):
+            # (members, idx, attr): the ID may itself be iterable (a tuple,
+            # a frozenset), so the attribute dict decides, not the ID.
+            format4 = True
+        elif (
             isinstance(second_elem, Iterable)
             and not isinstance(second_elem, str)
             and not isinstance(second_elem, dict)
